@@ -115,6 +115,8 @@ HIERARCHIES = {
                                L("EV", "ecu-variant", ["BV"], D("CP_Baudrate"))],
     # the parameter specification itself is read from ODX text; its first sub-parameter is a nested
     # complex parameter
+    "spec-and-value-from-xml": [L("P1", "protocol", [], D(TABLE, spec=XML_TABLE, xml=True)),
+                                L("EV", "ecu-variant", ["P1"], D("CP_Baudrate"))],
     "spec-from-xml": [L("P1", "protocol", [], D(TABLE, spec=XML_TABLE), D("CP_Baudrate")),
                       L("EV", "ecu-variant", ["P1"], D(TABLE, spec=XML_TABLE, omit=("CP_CanRespUSDTId",)))],
     # definitions read from ODX text, sub-values left out in the middle of the complex value
@@ -265,8 +267,11 @@ def run_resolve(sx, cfg, env):
                 # the definition as ODX text with concrete numbers, read by ComparamInstance.from_et
                 base = 1000 * (len(content) + 1)
                 if d["cp"] == TABLE:
-                    parts = []
-                    for j, sn in enumerate(SUBS):
+                    # (the specification read from text starts with a nested complex parameter:
+                    # its value is a nested COMPLEX-VALUE with two entries)
+                    parts = ["<COMPLEX-VALUE><SIMPLE-VALUE>7</SIMPLE-VALUE><SIMPLE-VALUE>8</SIMPLE-VALUE>"
+                             "</COMPLEX-VALUE>"] if d["spec"] == XML_TABLE else []
+                    for j, sn in enumerate(XSUBS if d["spec"] == XML_TABLE else SUBS):
                         if sn in d["omit"]:
                             parts.append("<SIMPLE-VALUE/>")
                         else:
@@ -290,7 +295,8 @@ def run_resolve(sx, cfg, env):
          {"name": TABLE, "id": DOIP_TABLE, "subset": "doip",
           "sub": [(n, _text(sx, subdefaults[n])) for n in SUBS]},
          {"name": TABLE, "id": XML_TABLE, "subset": "xmlspec", "from_xml": True,
-          "sub": [("CP_Nested", [("CP_Inner", "1")])] + [(n, 90000 + j) for j, n in enumerate(XSUBS)]}]
+          "sub": [("CP_Nested", [("CP_Inner", "1"), ("CP_Inner2", "2")])] +
+                 [(n, 90000 + j) for j, n in enumerate(XSUBS)]}]
     with warnings.catch_warnings():
         warnings.simplefilter("ignore")
         h = H.build_hierarchy({"specs": specs, "layers": layers})
